@@ -255,12 +255,16 @@ Definition member_same (full : bool) (a b : obs) (d : dname) : bool :=
   | Some (x, _), Some (y, _) => (if full then disk_eqb x y else attrs_eqb x y) && tok_eqb (img_tok a d) (img_tok b d)
   | _, _ => false
   end.
-Definition same_chain (full : bool) (a b : obs) : bool :=
+Definition same_members (full : bool) (a b : obs) : bool :=
   match o_chain a, o_chain b with
   | Some l1, Some l2 => list_eqb dname_eqb l1 l2 && forallb (member_same full a b) l1
-                        && list_eqb N.eqb (o_live a) (o_live b)
   | _, _ => false
   end.
+(** a replica whose Close failed is in mode CLOSED with its image files closed: nothing can be read *)
+Definition readable (o : obs) : bool :=
+  match o_mode o with Some CLOSED | None => false | Some _ => true end.
+Definition same_chain (full : bool) (a b : obs) : bool :=
+  same_members full a b && (if readable a && readable b then list_eqb N.eqb (o_live a) (o_live b) else true).
 Definition same_info_modulo_dirty (a b : obs) : bool :=
   match o_info a, o_info b with
   | Some x, Some y => N.eqb (i_size x) (i_size y) && odname_eqb (i_head x) (i_head y)
@@ -272,7 +276,7 @@ Definition same_info_modulo_dirty (a b : obs) : bool :=
 Definition is_open (o : obs) : bool := match o_mode o with Some _ => true | None => false end.
 
 (** one step.  [lo]: the last observation with the replica open (for the reopen round trip). *)
-Definition c12_step (lo : option obs) (prev : obs) (t : op) (cur : obs) : bool :=
+Definition c12_step (blk : bool) (lo : option obs) (prev : obs) (t : op) (cur : obs) : bool :=
   match t, o_res cur with
   | OCrashIn _ _, _ => negb (is_open cur)                (* the process is gone; judged at the next open *)
   | _, CDied => false                                    (* no fault is injected in these histories *)
@@ -286,18 +290,24 @@ Definition c12_step (lo : option obs) (prev : obs) (t : op) (cur : obs) : bool :
             if is_open prev then true
             else if rclass_eqb (o_res cur) COk
                  then same_chain false l cur && same_info_modulo_dirty l cur
-                 else false                              (* a directory left by close / process death between operations must open *)
+                 else blk && negb (is_open cur)          (* a directory left by close / process death between operations must
+                                                            open — unless this open was made to fail by an obstacle *)
         | _, _ => true
         end)
   end.
 
-Fixpoint c12_oracle (lo : option obs) (prev : obs) (ts : list op) (os : list obs) : bool :=
+Definition isblk (bs : list (list name)) : bool := match hd [] bs with [] => false | _ => true end.
+
+(** [bs]: per operation, the names at which an obstacle stood while it ran *)
+Fixpoint c12_oracle_b (lo : option obs) (prev : obs) (ts : list op) (bs : list (list name)) (os : list obs) : bool :=
   match ts, os with
   | [], [] => true
   | t :: ts', o :: os' =>
-      c12_step lo prev t o && c12_oracle (if is_open o then Some o else lo) o ts' os'
+      c12_step (isblk bs) lo prev t o && c12_oracle_b (if is_open o then Some o else lo) o ts' (tl bs) os'
   | _, _ => false
   end.
+Definition c12_oracle (lo : option obs) (prev : obs) (ts : list op) (os : list obs) : bool :=
+  c12_oracle_b lo prev ts [] os.
 
 Definition obs0 : obs := mkobs COk 0 None None [] None [] [].
 
@@ -308,10 +318,10 @@ Record case := mkcase { c_cfg : cfg; c_univ : list dname; c_ops : list op; c_blk
 Definition case_trace (c : case) : list obs := trace_bops (c_cfg c) (c_univ c) init (c_ops c) (c_blk c).
 
 (** index of the first step at which the oracle fails (for reporting), or None *)
-Fixpoint c12_first_fail (i : nat) (lo : option obs) (prev : obs) (ts : list op) (os : list obs) : option nat :=
+Fixpoint c12_first_fail (i : nat) (lo : option obs) (prev : obs) (ts : list op) (bs : list (list name)) (os : list obs) : option nat :=
   match ts, os with
   | t :: ts', o :: os' =>
-      if c12_step lo prev t o then c12_first_fail (S i) (if is_open o then Some o else lo) o ts' os'
+      if c12_step (isblk bs) lo prev t o then c12_first_fail (S i) (if is_open o then Some o else lo) o ts' (tl bs) os'
       else Some i
   | _, _ => None
   end.
@@ -324,8 +334,8 @@ Record verdict := mkverdict {
 
 Definition check_case (c : case) : verdict :=
   mkverdict (first_diff 0 (case_trace c) (c_obs c))
-            (c12_oracle None obs0 (c_ops c) (c_obs c))
-            (c12_first_fail 0 None obs0 (c_ops c) (c_obs c)).
+            (c12_oracle_b None obs0 (c_ops c) (c_blk c) (c_obs c))
+            (c12_first_fail 0 None obs0 (c_ops c) (c_blk c) (c_obs c)).
 
 (** (case index, (step, field), oracle ok, failing step or 999) for every case that differs or fails *)
 Fixpoint bad_cases (i : nat) (cs : list case) : list (nat * (nat * nat) * bool * nat) :=
@@ -344,7 +354,7 @@ Fixpoint bad_cases (i : nat) (cs : list case) : list (nat * (nat * nat) * bool *
 (** the oracle on the model's own trace of each case (it must hold wherever it holds on the
     implementation's trace: evaluated on every executed history, see checks/c12.py) *)
 Definition model_oracle (cs : list case) : list bool :=
-  map (fun c => c12_oracle None obs0 (c_ops c) (case_trace c)) cs.
+  map (fun c => c12_oracle_b None obs0 (c_ops c) (c_blk c) (case_trace c)) cs.
 
 (** coverage predicates, evaluated on the model side.
     1 a snapshot / remove / revert succeeded on a chain of >= 2   2 an operation was refused with the replica open
@@ -586,10 +596,18 @@ Record vcrun := mkvcrun { vk_at : nat; vk_err : errno; vk_res : rclass; vk_mem :
 Definition c08_cont_ok (pre post : obs) (x : vcrun) : bool :=
   rclass_eqb (vk_cres x) COk && c08_fail_ok pre post (vk_res x) (vk_open x).
 
+(** the memory of a process whose operation failed half-way is compared on Chain() and Info(), not on
+    ListDisks(): createDisk makes diskData[newSnap] and diskData[oldHead] the same record (one
+    pointer, Name = the snapshot), so ListDisks, which is keyed by that Name, shows one entry for the
+    two until the operation completes; the model keeps diskData keyed by the map key *)
+Definition mem_diff (a b : obs) : nat :=
+  obs_diff (mkobs (o_res a) (o_nact a) (o_mode a) (o_chain a) [] (o_info a) (o_dir a) [])
+           (mkobs (o_res b) (o_nact b) (o_mode b) (o_chain b) [] (o_info b) (o_dir b) []).
+
 (** per run: (index, memory diff field, Close result agrees, directory diff, reopen diff, oracle) *)
 Definition check_vcrun (v : vcase) (ipre ipost : obs) (x : vcrun) : nat * nat * bool * nat * nat * bool :=
   let '(mr, mm, mc, md, mo) := vic_cont v (vk_at x, vk_err x) in
-  (vk_at x, obs_diff mm (vk_mem x), rclass_eqb mc (vk_cres x) && rclass_eqb mr (vk_res x),
+  (vk_at x, mem_diff mm (vk_mem x), rclass_eqb mc (vk_cres x) && rclass_eqb mr (vk_res x),
    obs_diff md (vk_dir x), obs_diff mo (vk_open x), c08_cont_ok ipre ipost x).
 Definition check_vconts (v : vcase) (ipre ipost : obs) (xs : list vcrun) := map (check_vcrun v ipre ipost) xs.
 Definition cont_oracle_only (ipre ipost : obs) (xs : list vcrun) : list bool := map (c08_cont_ok ipre ipost) xs.
